@@ -488,10 +488,11 @@ def worlds():
         "a": _obj("GA", C4, [[2, 5, 9, 1], [1, 3, 7, 2], [2, 5, 6, 1]]),          # chr2:5-9 before chr2:5-6: a tie on start
         "b": _obj("GA", C4, [[4, 0, 2, 2], [13, 5, 9, 1]], index=[1, 3], meta=("sample_id", "k"))},   # chrX, chr1_gl000191_random
         ops=[m for m in ALL_OPS if m not in ("len", "bool", "contains", "iter", "new_none", "new_cols", "as_columns",
-                                             "setitem_slice", "setitem_maskcell", "as_series")],
+                                             "setitem_slice", "setitem_maskcell", "as_series", "coords", "labels",
+                                             "by_arm", "as_rows")],
         dsnew=[1, 4], dscols=[3], dsas=[1], dsrows=[1, 13], intidx=[0, 9], setidx=[-1], getcols=["start", "nope"], labels=[1, 4],
         cellcols=["start"], slices=[3], setslices=[1], ints=[[0, 0, 1]], setcols=[[0, "start"], [1, "zz"]], also=[4],
-        arms=[[2, 1]], coords=[[1, ["gene"]]], addcols=[["zz", "aa"]], keepcols=[["gene", "end", "start", "chromosome"], ["chromosome", "start"]],
+        arms=[[2, 1]], coords=[[1, ["gene"]]], addcols=[["zz", "aa"]], keepcols=[["gene", "end", "start", "chromosome"]],
         chroms=[2], genes=[1], thr=[2], concat=[1, 2], classes=[1]))
     # 2: small copy-number world for the exhaustive length-2 exploration: a bin exactly at the low-coverage threshold,
     #    a zero-depth bin, three bins on one chromosome (median != mean), X; second array with labels as left by a filter
